@@ -43,7 +43,7 @@ func init() {
 			}
 			return ps
 		},
-		MinObserved: []string{"scenario_executions", "S5_set_calls", "S5_client_ops", "fan_out_handler_rounds", "rounds_of_requests_after_failed_writes", "fresh_servers_whose_first_requests_were_unrouted", "repetitions_with_debug_level_loggers", "starttls_upgrades_with_a_shared_config_that_sets_an_old_minimum_version"},
+		MinObserved: []string{"scenario_executions", "S5_set_calls", "S5_client_ops", "fan_out_handler_rounds", "rounds_of_requests_after_failed_writes", "fresh_servers_whose_first_requests_were_unrouted", "repetitions_with_debug_level_loggers", "starttls_upgrades_with_a_shared_config_that_sets_an_old_minimum_version", "token_group_searches_in_the_directory_scenarios"},
 	})
 }
 
@@ -413,7 +413,10 @@ func c15Directory(c *Ctx, r *Rand, withSet bool) {
 			for i := 0; i < 120 && !stop.Load(); i++ {
 				dn := c20UserDN(rr.Intn(8))
 				var err error
-				switch rr.Intn(9) {
+				switch rr.Intn(10) {
+				case 9: // a token-groups search (base <SID=...>), served from the map SetTokenGroups replaces
+					_, _, err = kc.roundTrip(sber.Search{Base: []byte("<SID=S-1-1>"), Scope: 0, Filter: sber.PresentFilter("objectClass"), Attrs: [][]byte{}}.Node(), sber.AppSearchResultDone)
+					c.Count("token_group_searches_in_the_directory_scenarios", 1)
 				case 7: // anonymous binds: decided by the directory's flag alone
 					_, _, err = kc.roundTrip(sber.BindRequest(3, nil, nil), sber.AppBindResponse)
 				case 8:
